@@ -99,11 +99,17 @@ loop:
 	for i := range innerRing {
 		for j := range before {
 			if innerRing[i].Equal(before[j]) {
-				result = append(result, after[j])
+				// a key can be both a non-alphabet member of the inner ring and
+				// a new alphabet key, it must not be listed twice
+				if !result.Contains(after[j]) {
+					result = append(result, after[j])
+				}
 				continue loop
 			}
 		}
-		result = append(result, innerRing[i])
+		if !result.Contains(innerRing[i]) {
+			result = append(result, innerRing[i])
+		}
 	}
 
 	return result, nil
